@@ -1,6 +1,12 @@
 #!/bin/sh
-# Build the framework from files on disk only (offline).
+# Build the framework from files on disk only (offline): Java overrides, harness, primitive self-test.
 set -e
 cd "$(dirname "$0")"
-mkdir -p out/classes evidence
+export CARGO_NET_OFFLINE=true
+mkdir -p out/classes evidence out/replays
 javac -cp /opt/veriftools/tla/tla2tools.jar -d out/classes java/wowsrp/*.java
+(cd harness && cargo build --release --offline 2>&1 | tail -3)
+# the specification's primitives must agree with their TLA+ definitions before they judge anything
+tools/tlc.sh selftest MCPrimSelfTest -workers 1 > out/selftest.log 2>&1 || { tail -30 out/selftest.log; echo "setup: MCPrimSelfTest failed"; exit 1; }
+grep -q "No error has been found" out/selftest.log || { tail -30 out/selftest.log; exit 1; }
+echo "setup ok"
